@@ -1380,6 +1380,29 @@ theorem segment_ok {cfg : Cfg} (ok : CfgOK cfg) (hfuel : cfg.fuel = 0) (hperm : 
           · have hn' : (rd.h.mtype == cfg.mtSetName) = false := by simpa using hn
             by_cases hr : (rd.h.mtype == cfg.mtModuleReady) = true
             · exact seg_ready ok hfuel (OrdAll_of_perm hperm) inv rd hu0 m hm am hget hal s2 evs he' hb' q hc' hd' hs' hn' hr
-            · exact seg_data ok hfuel hperm inv rd m hm am hget hal s2 evs he' hb' q hc' hd' hs' hn' (by simpa using hr)
+            · exact (seg_data ok hfuel hperm inv rd m hm am hget hal s2 evs he' hb' q hc' hd' hs' hn' (by simpa using hr)).1
+
+/-- **C14, "a logger is waited for", frame by frame.**  In the situation of `segment_ok`: the clause `checkLoggerWaited` that
+`Spec.roundBody` evaluates on the events of the frame adds nothing — a logger that subscribes to the type of a data frame
+gets its copy whether its connection is writable or not (for a data frame this is part of the exact-routing argument of
+C01; a control frame or a broken frame is not routed). -/
+theorem loggerWaited_ok {cfg : Cfg} (ok : CfgOK cfg) (hfuel : cfg.fuel = 0) (hperm : OrdPerm cfg) {a : A} {s : State}
+    (inv : Inv cfg a s) (rd : Read) (hu0 : rd.uid ≠ 0) (m : Module) (hm : s.find rd.uid = some m)
+    (s2 : State) (q : QuietTo cfg (readOne cfg s rd) s2) (evs : List Ev) (he : s2.out = s.out ++ Ev.rd rd.uid :: evs)
+    (X : A) (hXm : X.mods = a.mods) (hXf : X.fail = a.fail) : Spec.checkLoggerWaited cfg X rd evs = X := by
+  have he' : s2.out = (rdState cfg s rd).out ++ evs := by rw [rdState_out, he]; simp
+  obtain ⟨am, ham⟩ := Option.isSome_iff_exists.mp ((inv.sim.live rd.uid hu0).mpr (by simp [hm]))
+  obtain ⟨hget, hal⟩ := Spec.live_some.mp ham
+  by_cases hb : Spec.brokenRd cfg rd = true
+  · exact Spec.checkLoggerWaited_skip cfg X rd evs (Or.inl hb)
+  · have hb' : Spec.brokenRd cfg rd = false := by simpa using hb
+    by_cases hctl : Spec.isControl cfg rd.h.mtype = true
+    · exact Spec.checkLoggerWaited_skip cfg X rd evs (Or.inr hctl)
+    · have hctl' : Spec.isControl cfg rd.h.mtype = false := by simpa using hctl
+      unfold Spec.isControl at hctl'
+      simp only [Bool.or_eq_false_iff] at hctl'
+      obtain ⟨⟨⟨⟨⟨⟨⟨⟨h1, h2⟩, h3⟩, h4⟩, h5⟩, h6⟩, h7⟩, h8⟩, h9⟩ := hctl'
+      exact (seg_data ok hfuel hperm inv rd m hm am hget hal s2 evs he' hb' q (by simp [h1, h2]) h3
+        (by simp [h4, h5, h6, h7]) h8 h9).2 X hXm hXf
 
 end Pyrtma.Mgr
